@@ -100,7 +100,14 @@ sbv __CPROVER_uninterpreted_scmul(sbv a, sbv b);
 sbv __CPROVER_uninterpreted_scinv(sbv a);
 static sbv sc_bv(const secp256k1_scalar *a) { return (((((sbv)a->d[3] << 64) | a->d[2]) << 64 | a->d[1]) << 64) | a->d[0]; }
 static void sc_from_bv(secp256k1_scalar *r, sbv v) { r->d[0] = (uint64_t)v; r->d[1] = (uint64_t)(v >> 64); r->d[2] = (uint64_t)(v >> 128); r->d[3] = (uint64_t)(v >> 192); }
-static sbv uf_scmul(sbv a, sbv b) { sbv r = __CPROVER_uninterpreted_scmul(a, b); __CPROVER_assume((bvw)r < verif_N()); return r; }
+/* commutative by construction (operands ordered), exact on the trivial operands 0 and 1: true facts about multiplication mod n,
+ * so that a refactor that merely swaps operands or multiplies by a constant 1 is not reported */
+static sbv uf_scmul(sbv a, sbv b) {
+    sbv lo = a < b ? a : b, hi = a < b ? b : a, r;
+    if (lo == 0) return 0;
+    if (lo == 1) return hi;
+    r = __CPROVER_uninterpreted_scmul(lo, hi); __CPROVER_assume((bvw)r < verif_N()); return r;
+}
 static sbv uf_scinv(sbv a) { sbv r = __CPROVER_uninterpreted_scinv(a); __CPROVER_assume((bvw)r < verif_N()); __CPROVER_assume((a == 0) == (r == 0)); return r; }
 void STUB_secp256k1_scalar_mul(secp256k1_scalar *r, const secp256k1_scalar *a, const secp256k1_scalar *b) { sc_from_bv(r, uf_scmul(sc_bv(a), sc_bv(b))); }
 void STUB_secp256k1_scalar_inverse(secp256k1_scalar *r, const secp256k1_scalar *a) { sc_from_bv(r, uf_scinv(sc_bv(a))); }
